@@ -75,7 +75,7 @@ func historyPart(r *runner.Run) {
 	if ji, ok := runner.Job(); ok {
 		j := jobs[ji]
 		spec := qcheck.Spec{Name: "c03-hist", Backend: j.backend, Cfg: qmodel.Config{}, Alpha: histAlpha(), Depth: j.depth, Workers: 4,
-			RootShard: j.shard, RootShards: hshards, MaxTrans: runner.Pick(r, int64(3_000_000), int64(40_000_000)), Deadline: time.Now().Add(budget), Extra: grants}
+			RootShard: j.shard, RootShards: hshards, ScaleCompaction: true, MaxTrans: runner.Pick(r, int64(3_000_000), int64(40_000_000)), Deadline: time.Now().Add(budget), Extra: grants}
 		res := qcheck.Run(spec)
 		qcheck.Report(r, spec, res)
 		r.Finish()
